@@ -162,7 +162,13 @@ fn setup_opt(pair: &[D; 2], cfg: TxCfg, partial_updates: bool) -> Option<Setup> 
     let mut psbt0 = Psbt::from_unsigned_tx(tx.clone()).ok()?;
     for i in 0..2 {
         let segwit = matches!(cases[i].d, D::Wpkh(_) | D::Wsh(_) | D::Tr(..) | D::ShWpkh(_) | D::ShWsh(_));
-        if segwit {
+        if cfg.name == "forged-utxo" {
+            // both utxo fields, the witness one with a forged amount: the amount is what segwit signatures commit to
+            let mut forged = prevouts[i].clone();
+            forged.value = Amount::from_sat(forged.value.to_sat() + 1);
+            psbt0.inputs[i].witness_utxo = Some(forged);
+            psbt0.inputs[i].non_witness_utxo = Some(funding[i].clone());
+        } else if segwit {
             psbt0.inputs[i].witness_utxo = Some(prevouts[i].clone());
         } else {
             psbt0.inputs[i].non_witness_utxo = Some(funding[i].clone());
@@ -689,7 +695,14 @@ fn explore_pair_mode(rep: &Report, name: &str, pair: &[D; 2], depth: usize, cfg:
             }
             // update invariants
             if let Act::Update(i) = a {
-                if r.is_ok() {
+                if cfg.name == "forged-utxo" {
+                    // the two utxo fields disagree about the amount: the update has to notice
+                    if r.is_ok() {
+                        viol("update-accepts-inconsistent-utxos".into(), format!("update_input_with_descriptor accepts input {} whose witness_utxo and non_witness_utxo disagree about the amount", i), &h2, json!(null));
+                    } else {
+                        bump(&mut cen, "inconsistent_utxos_refused");
+                    }
+                } else if r.is_ok() {
                     check_update_invariants(rep, &s, &q, *i, name, &mut cen);
                 } else {
                     viol("update-refused".into(), format!("update_input_with_descriptor failed: {:?}", r), &h2, json!(null));
@@ -858,6 +871,11 @@ pub fn run(tier: Tier) -> i32 {
             }
             jobs.push((format!("{}+{}@{}", a, b, cfg.name), [relabel(&fam[idx(a)].1, 0), relabel(&fam[idx(b)].1, 1)], depth, cfg));
         }
+    }
+    // inputs that carry both utxo fields with different amounts
+    let forged = TxCfg { name: "forged-utxo", ..CFG_DEFAULT };
+    for (a, b) in [("wpkh", "wsh-multi"), ("sh-wpkh", "tr-1leaf"), ("sh-wsh-sortedmulti", "pkh")] {
+        jobs.push((format!("{}+{}@forged-utxo", a, b), [relabel(&fam[idx(a)].1, 0), relabel(&fam[idx(b)].1, 1)], depth.min(6), forged));
     }
     rep.extra("bounds", json!({"pairs": pairs.len(), "jobs": jobs.len(), "history_depth": depth, "deep_depth_for_quick_pairs": deep_depth, "inputs": 2,
         "transaction_parameter_sets": CFGS_LOCKS.iter().map(|c| format!("{:?}", c)).collect::<Vec<_>>()}));
